@@ -82,7 +82,11 @@ class EvolventMachine(MachineMixin, RuleBasedStateMachine):
             self.ev = Evolvent([int(v) for v in lo], [int(v) for v in hi], n, m)
             self.cls.add("int-typed-constructor-bounds")
         else:
-            self.ev = Evolvent(np.array(lo, dtype=np.double), np.array(hi, dtype=np.double), n, m)
+            a, b = np.array(lo, dtype=np.double), np.array(hi, dtype=np.double)
+            self.ev = Evolvent(a, b, n, m)
+            # the evolvent must have copied the bounds: the caller goes on using its arrays for something else
+            a -= 3.0
+            b *= 0.0
         self.nbounds = 0
         self.cls.add("N=%d" % n)
 
